@@ -466,3 +466,108 @@ def c02(payload):
             r['error'] = exc_info(e)
         out.append(r)
     return dict(results=out)
+
+def _G_int(obs, a, b, k0):
+    """int over the straight segment a..b of exp(-j k0 R)/R dl (thin filament)"""
+    from scipy.integrate import quad
+    a = np.array(a, dtype=float); b = np.array(b, dtype=float); obs = np.array(obs, dtype=float)
+    L = np.linalg.norm(b - a)
+    def R(t): return np.linalg.norm(a + t * (b - a) - obs)
+    re = quad(lambda t: math.cos(k0 * R(t)) / R(t), 0, 1, epsabs=0, epsrel=1e-9, limit=100)[0]
+    im = quad(lambda t: -math.sin(k0 * R(t)) / R(t), 0, 1, epsabs=0, epsrel=1e-9, limit=100)[0]
+    return (re + 1j * im) * L
+
+def c04(payload):
+    """near field versus (i) -jwA - grad Phi of the solved currents and their charges, evaluated
+    independently from the touching segments, (ii) the reported far field at many wavelengths"""
+    from mininec.mininec import Angle
+    out = []
+    MU0 = 4e-7 * math.pi; C0 = 2.998e8; EPS0 = 1 / (MU0 * C0 * C0)
+    for case in payload['cases']:
+        r = dict(id=case['id'])
+        try:
+            rng, spec, m0 = _prep(case)
+            spec['loads'] = []
+            r['spec'] = spec
+            m = _solve(spec)
+            ground = m.media is not None
+            lam = 299.8 / m.f; k0 = 2 * math.pi / lam; om = k0 * C0
+            tol = m.min_seglen * 1e-3 * 1.01
+            geo = [_pulse_geo(m, p, tol) for p in m.pulses]
+            I = np.array(m.current)
+            maxseg = max(max(g['lenA'], g['lenB']) for g in geo)
+            bad = []
+            def elements():
+                for g, i_n in zip(geo, I):
+                    for k in ((1, -1) if ground else (1,)):
+                        kv = np.array([1, 1, k], dtype=float)
+                        # image of a current element: mirrored position, direction (-dx,-dy,dz) = -mirror(d)
+                        sgn = 1.0 if k > 0 else -1.0
+                        halves = []
+                        if not (g['grounded'] and False):
+                            halves = [('A', g['A'], g['pt'], g['eA'], g['lenA']), ('B', g['pt'], g['B'], g['eB'], g['lenB'])]
+                        for (nm, a, b, e, ln) in halves:
+                            # a grounded pulse: its image half IS the image of the real half; do not image it again
+                            if g['grounded'] and k < 0:
+                                continue
+                            yield (i_n, sgn, a * kv, b * kv, e * kv, ln, nm)
+            def A_phi(obs):
+                A = np.zeros(3, dtype=complex); phi = 0j
+                for (i_n, sgn, a, b, e, ln, nm) in elements():
+                    mid = (a + b) / 2
+                    h0, h1 = (mid, b) if nm == 'A' else (a, mid)     # the half next to the pulse point
+                    A += sgn * i_n * e * _G_int(obs, h0, h1, k0)
+                    q = (i_n / ln) if nm == 'A' else (-i_n / ln)      # dI/dl over the full segment
+                    phi += sgn * q * _G_int(obs, a, b, k0)
+                return MU0 / (4 * math.pi) * A, -1 / (1j * om) / (4 * math.pi * EPS0) * phi
+            pts = []
+            allp = np.array([g['pt'] for g in geo])
+            for _ in range(40):
+                c = allp[rng.randrange(len(allp))] + np.array(gen._unit(rng)) * maxseg * rng.uniform(1.5, 6)
+                if ground and c[2] < maxseg: continue
+                if np.linalg.norm(allp - c, axis=1).min() >= 1.2 * maxseg:
+                    pts.append(c)
+                if len(pts) >= payload.get('points', 2): break
+            h = 1e-3 * lam
+            for c in pts:
+                m.compute_near_field(list(c), [1.0, 1.0, 1.0], [1, 1, 1])
+                E = np.array(m.e_field[0]); H = np.array(m.h_field[0])
+                A0, p0 = A_phi(c)
+                grad = np.zeros(3, dtype=complex); dA = np.zeros((3, 3), dtype=complex)
+                for ax in range(3):
+                    d = np.zeros(3); d[ax] = h / 2
+                    Ap, pp = A_phi(c + d); Am, pm = A_phi(c - d)
+                    grad[ax] = (pp - pm) / h; dA[ax] = (Ap - Am) / h          # dA[ax][comp] = d A_comp / d x_ax
+                Eref = -1j * om * A0 - grad
+                r['worstE'] = max(r.get('worstE', 0), float(np.abs(E - Eref).max() / np.abs(Eref).max()))
+                Href = np.array([dA[1][2] - dA[2][1], dA[2][0] - dA[0][2], dA[0][1] - dA[1][0]]) / MU0
+                r['worstH'] = max(r.get('worstH', 0), float(np.abs(H - np.array([dA[1][2] - dA[2][1], dA[2][0] - dA[0][2], dA[0][1] - dA[1][0]]) / MU0).max() / np.abs(Href).max()))
+                if np.abs(E - Eref).max() > 1e-2 * np.abs(Eref).max():
+                    bad.append('E deviates from -jwA - grad Phi of the solved currents and charges: at %r E is %r, reference %r (%.3g relative)' % (
+                        [round(float(x), 4) for x in c], list(np.round(E, 6)), list(np.round(Eref, 6)), np.abs(E - Eref).max() / np.abs(Eref).max()))
+                if np.abs(H - Href).max() > 1e-2 * np.abs(Href).max():
+                    bad.append('H deviates from curl A / mu0 of the solved currents: at %r by %.3g relative' % (
+                        [round(float(x), 4) for x in c], np.abs(H - Href).max() / np.abs(Href).max()))
+            # far zone: merges into the reported far field, transverse, E/H = 376.7
+            R = lam * rng.choice([60, 200, 1000])
+            th = math.radians(rng.uniform(15, 75)); ph = math.radians(rng.uniform(0, 360))
+            u = np.array([math.sin(th) * math.cos(ph), math.sin(th) * math.sin(ph), math.cos(th)])
+            P = 10 ** rng.uniform(-1, 2)
+            m.compute_near_field(list(R * u), [1.0, 1.0, 1.0], [1, 1, 1], P)
+            E = np.array(m.e_field[0]); H = np.array(m.h_field[0])
+            m.compute_far_field(Angle(math.degrees(th), 0, 1), Angle(math.degrees(ph), 0, 1), pwr=P, dist=R)
+            ff = math.hypot(abs(m.far_field.e_theta[0][0]), abs(m.far_field.e_phi[0][0]))
+            nE = np.linalg.norm(E); nH = np.linalg.norm(H)
+            if ff > 0 and abs(nE / ff - 1) > 0.03:
+                bad.append('near field does not merge into the reported far field: at %.0f wavelengths |E| = %.6g V/m, far field %.6g V/m (ratio %.4f)' % (R / lam, nE, ff, nE / ff))
+            if abs(nE / nH / 376.7 - 1) > 0.01:
+                bad.append('far-zone E/H is not 376.7 ohm: %.2f ohm at %.0f wavelengths' % (nE / nH, R / lam))
+            if abs(np.dot(E, u)) > 0.03 * nE or abs(np.dot(H, u)) > 0.03 * nH:
+                bad.append('far-zone fields are not transverse: E.r/|E| = %.3g, H.r/|H| = %.3g' % (abs(np.dot(E, u)) / nE, abs(np.dot(H, u)) / nH))
+            r['bad'] = bad; r['cond'] = float(np.linalg.cond(m.Z)); r['npts'] = len(pts)
+        except AssertionError:
+            r['skipped'] = True
+        except Exception as e:
+            r['error'] = exc_info(e)
+        out.append(r)
+    return dict(results=out)
